@@ -1455,3 +1455,53 @@ def value_slot_naming(ctx):
                     expected=f"a class name containing one of {sorted(needles)}",
                     found=f"{c.name}: an object of this class stores its content as attribute {c.name!r}, which value / to_cbor / to_obj never find",
                     key_extra=c.name)
+
+
+def kwargs_keys_are_dests(ctx, rid, modname, entry="main"):
+    """Every key the command's entry point reads from its **kwargs is the destination of an option (or sub-command selector) the
+    module registers: argparse hands the values over under `dest` - the long flag with '-' replaced by '_' unless dest= says
+    otherwise - so a key spelled any other way is never present (KeyError, or for .get() silently the default)."""
+    R, repo = ctx.report, ctx.repo
+    m = repo.mod(modname)
+    fi = repo.func(modname, entry)
+    kwname = fi.node.args.kwarg.arg if fi.node.args.kwarg else None
+    if kwname is None:
+        return
+    dests = set()
+    for _f, _c, pos, kw, _recv in cli_registrations(repo, m):
+        d = kw.get("dest")
+        if isinstance(d, ast.Constant) and isinstance(d.value, str):
+            dests.add(d.value)
+            continue
+        flags = [a.value for a in pos if isinstance(a, ast.Constant) and isinstance(a.value, str)]
+        longs = [f_ for f_ in flags if f_.startswith("--")]
+        if longs:
+            dests.add(longs[0][2:].replace("-", "_"))
+        elif flags and not flags[0].startswith("-"):
+            dests.add(flags[0])
+        elif flags:
+            dests.add(flags[0].lstrip("-").replace("-", "_"))
+    for n in ast.walk(m.tree):
+        if isinstance(n, ast.Call) and isinstance(n.func, ast.Attribute) and n.func.attr == "add_subparsers":
+            for k in n.keywords:
+                if k.arg == "dest":
+                    try:
+                        v_ = ctx.ev.const(k.value, m)  # a literal or a named constant (ImageCreator.IMAGE_CMD)
+                    except AnalysisError:
+                        raise AnalysisError(f"{modname}: destination of the sub-command selector is not a constant ({ast.unparse(k.value)})")
+                    dests.add(v_)
+    reads = []
+    for n in ast.walk(fi.node):
+        if isinstance(n, ast.Subscript) and isinstance(n.value, ast.Name) and n.value.id == kwname and isinstance(n.slice, ast.Constant) \
+                and isinstance(n.slice.value, str):
+            reads.append((n.slice.value, n))
+        elif isinstance(n, ast.Call) and isinstance(n.func, ast.Attribute) and n.func.attr in ("get", "pop") and isinstance(n.func.value, ast.Name) \
+                and n.func.value.id == kwname and n.args and isinstance(n.args[0], ast.Constant) and isinstance(n.args[0].value, str):
+            reads.append((n.args[0].value, n))
+    if not dests or not reads:
+        raise AnalysisError(f"{modname}:{entry}: option destinations / keyword reads not recognised ({len(dests)} / {len(reads)})")
+    R.rule(rid, len({k for k, _ in reads}) and 3, "every key read from **kwargs is the dest of a registered option")
+    for k, node in reads:
+        R.check(rid, k in dests, f"{modname}:{entry} reads {k!r}", mod=m, node=node, function=ctx.fq(fi),
+                expected=f"one of the registered destinations {sorted(dests)}"[:300],
+                found=f"{k!r} is not the destination of any option: the value the user gave never arrives (default / KeyError instead)", key_extra=k + str(node.lineno))
